@@ -2,6 +2,12 @@
 
 package pypi
 
+import (
+	"sort"
+
+	"deps.dev/util/resolve/pypi/internal"
+)
+
 // VerifEvalMarker parses a PEP 508 environment marker and evaluates it in the
 // fixed target environment with the given extras. It exists only for
 // verification builds.
@@ -17,4 +23,25 @@ func VerifEvalMarker(raw string, extras map[string]bool) (ok bool, err error) {
 func VerifParseMarker(raw string) error {
 	_, err := parseMarker(raw)
 	return err
+}
+
+// VerifEnvironment returns the marker environment as the evaluator holds it at
+// run time: for every known variable its key in the table, the variable's name
+// and its value, sorted by key, together with the platform values they are
+// taken from.
+func VerifEnvironment() (vars [][3]string, platform map[string]string) {
+	keys := make([]string, 0, len(environmentVariables))
+	for k := range environmentVariables {
+		keys = append(keys, k)
+	}
+	sort.Strings(keys)
+	for _, k := range keys {
+		v := environmentVariables[k]
+		vars = append(vars, [3]string{k, v.name, v.value})
+	}
+	platform = make(map[string]string, len(internal.Markers))
+	for k, v := range internal.Markers {
+		platform[k] = v
+	}
+	return vars, platform
 }
